@@ -25,26 +25,42 @@ META = {
                   'the three levels exactly once per effective line, immediate call-backs on registration, nothing otherwise), '
                   'timestamp_not_future / timestamps_not_future_run, rebuilt_error + standard_classes_kept, '
                   'ineffective_changes_nothing, accepted_is_import, e2e_read / e2e_write over abstract codecs with the round-trip '
-                  'laws as hypotheses, judge_iff (the monitor decides the specification), tables_ok (by decide on the generated '
-                  'tables).  The model is tied to frappy/client/__init__.py and errors.py by a correspondence run on the real '
-                  'receive loop, compared event by event; the Lean monitor judges every recorded history.',
+                  'laws as hypotheses, and e2e_write_datatypes / e2e_read_datatypes where these hypotheses are discharged for the '
+                  'datatype model (export with the rebuilt client datatype, import on the node, export of the answer, import on the '
+                  'client: every well-formed datatype tree, every valid value, every float carrier satisfying Spec.C02.WireLaws; '
+                  'int_import_exact), error_roundtrip + source_classes_ok (an error of any class of errors.py formatted by a node '
+                  'and rebuilt by the client is the same object), judge_iff and writeOkB_iff (the monitors decide the '
+                  'specification), tables_ok (by decide on the generated tables).  Callbacks may unregister callbacks while they run '
+                  '(a registration removed during the dispatch of a message sees it at most once, all others exactly once).  The '
+                  'model is tied to frappy/client/__init__.py and errors.py by a correspondence run on the real receive loop, '
+                  'compared event by event, with the import oracle instantiated by the datatype model (Datatypes.importValue on the '
+                  'trees of the datatypes the client rebuilt): the Lean monitor judges every recorded history without using the '
+                  'implementation\'s import_value.  Every end-to-end write over the real TCP server (directly and through a proxy '
+                  'module) is judged by the Lean monitor writeOkB with Python == as PVal.pyEq and compared with the model\'s account '
+                  '(writeTrace / proxyTrace: export, import, validate with previous, write wrapper, answer, import).',
     'level_note': 'Trusted: Lean kernel + axioms propext/Classical.choice/Quot.sound; tables regenerated from the source; '
-                  'decode_msg (C07) and datatype import/export (C01/C02) are oracles; part (b) (real TCP server, real client, proxy) '
-                  'is a test, not a proof.',
+                  'decode_msg (C07) is an oracle; the datatype model (C01/C02) stands for import_value/export_value/validate and is '
+                  'compared with the code in every case; the laws of the float carrier (WireLaws) and of base64 (B64Law) are '
+                  'hypotheses of the end-to-end theorems; the node-side validate(value, previous) is in the compared model '
+                  '(writeTrace) but not in e2e_write_datatypes; part (b) (real TCP server, real client, proxy) is a test judged by '
+                  'Lean monitors, not a proof.',
     'trusted': [
         'decode_msg (frappy.protocol.interface) is used to canonicalise the scripted lines for the model (property C07)',
-        'datatype.import_value / export_value are oracles here; the round-trip law is a hypothesis of e2e_write/e2e_read (property C02)',
+        'get_datatype (datainfo -> datatype object, property C03) and vlib.dtcodec.dt_to_tree deliver the datatype trees the model imports with',
+        'Spec.C02.WireLaws (binary64) and B64Law are hypotheses of e2e_write_datatypes / e2e_read_datatypes (property C02)',
         'time stamps and clock readings are drawn from a grid of exactly representable doubles (multiples of 0.25) and sent to the '
         'model as integers; IEEE comparison on these coincides with integer comparison',
         'part (b) end to end over real sockets and threads is a test that supports the composed theorem, labelled as such',
     ],
     'modelled_not_verified': [
         'request/reply matching and the threads of SecopClient (property C11)',
-        'frappy/proxy.py glue (exercised in part (b), not modelled)',
+        'frappy/proxy.py: the generated write function is modelled (proxyTrace) and compared; read functions, updateEvent forwarding '
+        'and status handling are exercised in part (b), not modelled',
         'socketserver / TCPServer / AsynConn',
         're module: the model transcribes FRAPPY_ERROR by hand (\\w restricted to ASCII, see design_notes/C12.md)',
     ],
-    'assumptions': ['callbacks do not themselves call register_callback/unregister_callback or write the cache',
+    'assumptions': ['callbacks do not themselves call register_callback or write the cache (calling unregister_callback from inside a '
+                    'callback, for itself or for others, is modelled and generated)',
                     'setParameterFromString (F09) is out of scope: C12 speaks about setParameter'],
 }
 
@@ -1088,6 +1104,11 @@ def run(ctx):
                     res.count('line.cache=' + ('changed' if st['cache'] != prev_cache else 'same'))
                     kind = ev[2][0] if ev[2] else 'garbage'
                     res.count('line.' + (kind if kind in UPDATE_ACTIONS + ['garbage', 'error_change'] else 'other'))
+                    if ev[2] and ev[2][2][0] == 'v' and st['cache'] != prev_cache:       # an imported value: which kind
+                        jv = ev[2][2][1]
+                        res.count('imported.' + ('int>2**53' if isinstance(jv, int) and not isinstance(jv, bool) and abs(jv) > 2 ** 53
+                                                 else 'float' if isinstance(jv, dict) and 'f' in jv
+                                                 else 'object' if isinstance(jv, dict) else type(jv).__name__))
                     if len(st['calls']) >= 2:
                         eff += 1
                     if not st['calls'] and not st['reported']:
@@ -1098,6 +1119,7 @@ def run(ctx):
                     if ev[0] == 'reg':
                         res.count('reg.immediate_calls=%s' % min(len(st['calls']), 3))
                 prev_cache = st['cache']
+            res.count('case.callbacks_unregistering_inside=%d' % min(3, sum(1 for v in case['cbs'].values() if v.get('removes'))))
             if eff and idle and steps and steps[-1]['cache']:
                 res.nontriv(wired)
             if len(res.samples) < 3 and eff and len(case['events']) <= 6:
